@@ -239,15 +239,15 @@ func runC03(c *Ctx) {
 	cut := env.FaultSet{LostClose: true, AckLost: true, WriteErr: true, ConnRefuse: true, DialErr: true}
 	cl := env.FaultSet{LostClose: true, AckLost: true}
 	fams := []fam{
-		{"N2.F2", 2, []string{"p0", "p1", "p2", "sub", "unsub"}, []byte{'B', 'N', 'O'}, vrt.Budget{F: 2}, cl},
-		{"N2.F1.all", 2, []string{"p0", "p1", "p2", "sub", "unsub"}, []byte{'B', 'S', 'N', 'O'}, vrt.Budget{F: 1}, cut},
+		{"N2.F2", 2, []string{"p0", "p1", "p2", "sub", "unsub"}, []byte{'B', 'N', 'H'}, vrt.Budget{F: 2}, cl},
+		{"N2.F1.all", 2, []string{"p0", "p1", "p2", "sub", "unsub"}, []byte{'B', 'S', 'N', 'O', 'H'}, vrt.Budget{F: 1}, cut},
 		{"N3.F1", 3, []string{"p1", "p2", "sub"}, []byte{'B', 'N'}, vrt.Budget{F: 1}, cut},
 		{"N3.F2.pub", 3, []string{"p1", "p2"}, []byte{'N'}, vrt.Budget{F: 2}, cl},
 	}
 	if c.Thorough() {
 		fams = []fam{
-			{"N2.F2.all", 2, []string{"p0", "p1", "p2", "sub", "unsub"}, []byte{'B', 'S', 'N', 'O'}, vrt.Budget{F: 2}, cut},
-			{"N3.F2", 3, []string{"p1", "p2", "sub", "unsub"}, []byte{'B', 'N', 'O'}, vrt.Budget{F: 2}, cl},
+			{"N2.F2.all", 2, []string{"p0", "p1", "p2", "sub", "unsub"}, []byte{'B', 'S', 'N', 'O', 'H'}, vrt.Budget{F: 2}, cut},
+			{"N3.F2", 3, []string{"p0", "p1", "p2", "sub"}, []byte{'B', 'N', 'H'}, vrt.Budget{F: 2}, cl},
 			{"N3.F3.pub", 3, []string{"p1", "p2"}, []byte{'N'}, vrt.Budget{F: 3}, cl},
 			{"N2.F1.P2", 2, []string{"p1", "p2", "sub"}, []byte{'B', 'N'}, vrt.Budget{F: 1, P: 2, S: 1, Total: 3}, cl},
 		}
@@ -343,6 +343,10 @@ func runC12(c *Ctx) {
 	}
 	cut := env.FaultSet{LostClose: true, AckLost: true, WriteErr: true}
 	one := [][]rcReq{{{Kind: "p1", Tag: "m1", Phase: 'S'}}, {{Kind: "p2", Tag: "m1", Phase: 'S'}}, {{Kind: "p1", Tag: "m1", Phase: 'B'}}, {{Kind: "p2", Tag: "m1", Phase: 'B'}}, {{Kind: "p0", Tag: "m1", Phase: 'S'}}}
+	for _, k := range []string{"p0", "p1", "p2"} {
+		// the caller's Message arrives with Dup already set (forwarded from a handler / reused struct)
+		one = append(one, []rcReq{{Kind: k, Tag: "m1", Phase: 'S', Dup: true}})
+	}
 	two := rcWorkloads(2, []string{"p0", "p1", "p2"}, []byte{'S', 'N'})
 	fams := []fam{
 		{"one.F3", one, vrt.Budget{F: 3}, cut},
